@@ -171,6 +171,12 @@ class C07(Harness):
             us.append({'kind': 'validator-files', 'files': 'up', 'q': q})
         for line in (INCL_Q if tier == 'quick' else INCL_T):
             us.append({'kind': 'inclarg', 'lines': [['kc v'], line]})
+        # package: URLs whose package part is an importable PLAIN MODULE (stdlib and generated), a namespace
+        # package, a package without the named file
+        for ref in ('package:os:x.conf', 'package:json.decoder:x', 'package:vfq_mod:component.xml',
+                    'package:vfq_nocomp:x.conf', 'package:vfq_a:nosuch.conf', 'package:vfq_a:component.xml',
+                    'package:xml.sax:', 'package:vfq_a/x:y'):
+            us.append({'kind': 'inclarg', 'lines': [['kc ', 1], ['%include ' + ref]]})
         return us
 
     def inputs(self, eng, unit):
